@@ -2,6 +2,8 @@
 //! (`openssl s_client` / `openssl s_server`) on loopback, certificates from /verif/certs.
 //!
 //! tls srv <min 12|13> <mode ca|ss> <authz 0|1> <peer versions 12|13|both> <peer cert|none> [<expected peer cert for ss>]
+//! tls srvseq …the same, with `<cert1>,<cert2>,…`: several peers, one after the other, on ONE server
+//!            instance; one result group per peer, joined by ` ; `
 //! tls cli <min 12|13> <mode ca|ss> <peer versions 12|13|both> <server cert> <server name|-> [<expected peer cert for ss>]
 use crate::points::*;
 use crate::util::*;
@@ -111,7 +113,46 @@ async fn run_srv(tok: &[&str]) -> String {
         create_tls_server_task(4, listener, map, cfg, AddressFilter::Any, DecodeLevel::nothing())
     };
     let join = tokio::spawn(task.run());
-    // the independent peer
+    // `srvseq`: the peers connect one after the other to the same server instance
+    let peers: Vec<String> = if tok[1] == "srvseq" {
+        peer_cert.split(',').map(|x| x.to_string()).collect()
+    } else {
+        vec![peer_cert.to_string()]
+    };
+    let mut groups: Vec<String> = Vec::new();
+    for peer_cert in peers {
+        let seen = log.lock().unwrap().len();
+        let (reply, err) = match one_peer(port, tok[5], &peer_cert).await {
+            Ok(x) => x,
+            Err(e) => return e,
+        };
+        let n = reply.len();
+        let hs = n > 0;
+        // what this peer's session logged (the previous peer is gone: its process was killed
+        // and reaped before the next one starts)
+        let calls: Vec<String> = log.lock().unwrap()[seen..].to_vec();
+        let role = calls
+            .iter()
+            .find(|c| c.starts_with('A'))
+            .map(|c| c.rsplit('.').next().unwrap_or("-").to_string())
+            .unwrap_or("-".into());
+        groups.push(format!(
+            "hs={} ver={} reply={} role={} calls={}",
+            if hs { "ok" } else { "fail" },
+            if hs { negotiated(&err) } else { "-" },
+            hex(&reply),
+            role,
+            calls.iter().filter(|c| !c.starts_with('A')).count()
+        ));
+    }
+    drop(handle);
+    let _ = tokio::time::timeout(Duration::from_millis(500), join).await;
+    groups.join(" ; ")
+}
+
+/// one independent peer (`openssl s_client`): handshake, one request, the reply (if any) and the
+/// peer's diagnostics
+async fn one_peer(port: u16, versions: &str, peer_cert: &str) -> Result<(Vec<u8>, String), String> {
     let mut cmd = std::process::Command::new("openssl");
     cmd.arg("s_client")
         .arg("-connect")
@@ -120,7 +161,7 @@ async fn run_srv(tok: &[&str]) -> String {
         .arg("-no_ign_eof")
         .arg("-servername")
         .arg("test.com");
-    for f in version_flags(tok[5]) {
+    for f in version_flags(versions) {
         cmd.arg(f);
     }
     if peer_cert != "none" {
@@ -133,7 +174,7 @@ async fn run_srv(tok: &[&str]) -> String {
         }
     }
     cmd.stdin(Stdio::piped()).stdout(Stdio::piped()).stderr(Stdio::piped());
-    let (reply, err) = match tokio::task::spawn_blocking(move || {
+    tokio::task::spawn_blocking(move || {
         use std::io::{Read, Write};
         let mut child = cmd.spawn().map_err(|e| format!("spawn-error:{e}"))?;
         let mut stdin = child.stdin.take().unwrap();
@@ -160,28 +201,6 @@ async fn run_srv(tok: &[&str]) -> String {
     })
     .await
     .unwrap()
-    {
-        Ok(x) => x,
-        Err(e) => return e,
-    };
-    let n = reply.len();
-    let hs = n > 0;
-    let calls = log.lock().unwrap().clone();
-    let role = calls
-        .iter()
-        .find(|c| c.starts_with('A'))
-        .map(|c| c.rsplit('.').next().unwrap_or("-").to_string())
-        .unwrap_or("-".into());
-    drop(handle);
-    let _ = tokio::time::timeout(Duration::from_millis(500), join).await;
-    format!(
-        "hs={} ver={} reply={} role={} calls={}",
-        if hs { "ok" } else { "fail" },
-        if hs { negotiated(&err) } else { "-" },
-        hex(&reply),
-        role,
-        calls.iter().filter(|c| !c.starts_with('A')).count()
-    )
 }
 
 struct StateLog {
@@ -334,7 +353,7 @@ async fn run_cli(tok: &[&str]) -> String {
 
 pub async fn run_tls(tok: &[&str]) -> String {
     let _ = Path::new("/");
-    if tok[1] == "srv" {
+    if tok[1] == "srv" || tok[1] == "srvseq" {
         run_srv(tok).await
     } else {
         run_cli(tok).await
